@@ -55,6 +55,7 @@ ASSUMPTIONS = [
     "ended); a reply of the read loop is made by that goroutine alone (the interleaving of a reply with fan-out writes of another goroutine is "
     "covered by the theorems - units are atomic - not by the harness); at most 3 datagrams per socket kind and case are synchronised (lal logs "
     "only the first three); rtsp over WebSocket: only requests are fed (an interleaved packet inside a WebSocket frame is a parse error)",
+    "relay pull as the group's input is not driven (a pull session is attached only once its upstream connection is up)",
     "cost of a write to a full queue: measured (fastest of 3 batches of 100 writes, bound 1 ms per write = about 600 x the measured 1-2 us); the proof part "
     "is c15_one_attempt (one connection write call per unit in every queue state) tied to the code by the counted Write/Writev calls",
 ]
